@@ -148,6 +148,17 @@ def call_symmethod(interp, st, f, args, kwargs):
 def getitem_symbolic(interp, st, obj, key):
     if obj.kind == "sym" and key.kind in ("const", "int"):
         kt = z3.IntVal(key.d) if key.kind == "const" and type(key.d) is int else key.d if key.kind == "int" else None
+        if kt is not None and getattr(interp, "index_safety", False):
+            # index safety is an obligation of this unit: the out-of-range path raises IndexError like CPython does
+            ot = interp.term(st, obj)
+            ln = T.F_len(ot)
+            st.assume(ln >= 0)
+            for s, inr in interp.fork_on(st, z3.And(kt >= -ln, kt < ln)):
+                if inr:
+                    yield s, ("ok", V("sym", t=T.F_at(ot, z3.If(kt < 0, kt + ln, kt))))
+                else:
+                    yield s, (RAISE, interp.make_exception(s, IndexError, []))
+            return
         if kt is not None:
             interp.ctx.assume_note("integer subscripts of symbolic tuples are in range")
             yield st, ("ok", V("sym", t=T.F_at(interp.term(st, obj), kt)))
